@@ -55,6 +55,15 @@ impl Formatter for EmptyLineRemover {
             return (byte_pos, byte_pos);
         }
 
+        // The line break is the residue of a removed line only if the removal position is at
+        // the head of its line (nothing but blanks since the previous line break);
+        // otherwise removing it would join two lines.
+        let is_line_head =
+            byte_pos == 0 || find_prev_line_break_pos(content, bytes, byte_pos, true).is_some();
+        if !is_line_head {
+            return (byte_pos, byte_pos);
+        }
+
         let is_not_next_line_empty = find_next_line_break_pos(content, bytes, byte_pos, true)
             .and_then(|pos| find_next_line_break_pos(content, bytes, pos + 1, true))
             .is_none();
